@@ -74,7 +74,7 @@ func genC08(rng *Rng, workdir string) *engSession {
 				if pl.flownAll && !pl.checkedAt {
 					pl.checkedAt = true
 					t, ok := s.get(i)
-					kept := ok && uint64(t.Kept.TripStart) == pl.ts && uint64(t.Kept.TripEnd) == pl.te && !t.MidTrip()
+					kept := ok && uint64(t.Kept.TripStart) == pl.ts && uint64(t.Kept.TripEnd) == pl.te && !midTripOf(&t)
 					if kept {
 						s.stat["c08_kept"]++
 						if len(pl.legs) >= 3 {
@@ -105,18 +105,18 @@ func genC08(rng *Rng, workdir string) *engSession {
 					if pl.next > 0 {
 						early = uint64(rng.Range(0, 1500))
 					} else {
-						pl.fresh = !had || !tBefore.MidTrip()
+						pl.fresh = !had || !midTripOf(&tBefore)
 					}
 					code := s.submit(i, []flap.VerifFlight{f}, uint64(f.Start)-early, true)
-					if code == 1 && had && !tBefore.MidTrip() && keptDue(&tBefore, uint64(f.Start)+1500) {
+					if code == 1 && had && !midTripOf(&tBefore) && keptDue(&tBefore, uint64(f.Start)+1500) {
 						s.fail("C08", "kept-promise-due-but-checkin-refused", fmt.Sprintf("traveller %d holds a kept promise whose clearance date has passed, yet the check-in at %d was refused as grounded", i, f.Start))
 					}
 					if code != 0 {
 						pl.refused = true
-						if pl.next == 0 || !(had && tBefore.MidTrip()) {
+						if pl.next == 0 || !(had && midTripOf(&tBefore)) {
 							s.stat["c08_leg_refused"]++
 						}
-					} else if had && tBefore.Kept.Clearance != 0 && !tBefore.MidTrip() && keptDue(&tBefore, uint64(f.Start)) {
+					} else if had && tBefore.Kept.Clearance != 0 && !midTripOf(&tBefore) && keptDue(&tBefore, uint64(f.Start)) {
 						// the check-in that used a kept promise (clearance date reached) must consume it
 						tAfter, _ := s.get(i)
 						if tAfter.Kept.Clearance != 0 {
